@@ -364,8 +364,13 @@ class AirTouchSocket(Generic[comms.Hdr]):
 
     async def _read(self) -> None:
         """The main read loop for the AirTouch socket."""
+        # This loop serves the connection that is current when it starts. If
+        # that connection is replaced while the loop is suspended (e.g. while a
+        # message is being delivered), the new connection has its own read loop
+        # and this one must neither read from it nor reset it.
+        reader = self._reader
         try:
-            while self._reader:
+            while reader and self._reader is reader:
                 read_result = await self._read_one_message()
                 if read_result:
                     header, message = read_result
@@ -375,16 +380,22 @@ class AirTouchSocket(Generic[comms.Hdr]):
 
         except asyncio.IncompleteReadError:
             _LOGGER.debug("Socket closed")
-            if self._writer and not self._writer.is_closing():
+            if (
+                self._reader is reader
+                and self._writer
+                and not self._writer.is_closing()
+            ):
                 _LOGGER.debug("_read(): Socket closed by other side")
                 await self.reset_connection()
         except OSError as ex:
             # Usually this indicates that the socket was closed.
             _LOGGER.debug("_read(): Socket error: %s.", ex)
-            await self.reset_connection()
+            if self._reader is reader:
+                await self.reset_connection()
         except Exception:
             _LOGGER.exception("_read(): Unexpected exception in socket handling")
-            await self.reset_connection()
+            if self._reader is reader:
+                await self.reset_connection()
 
     async def _read_one_message(
         self,
